@@ -90,6 +90,22 @@ def io_streams(seed, tier):
     out.append(Stream("io-random40", "run", "run.check", cases,
                       "random sequences of up to 40 INPUT/OUTPUT instructions and vector / index literals on queues of 0..10 / 0..3 messages"))
 
+    # 2b. the same message written (and read) several times in a row: every write is a message of its own
+    cases = []
+    for k in range(3000 if big else 600):
+        st = io_state(rng, None, rng.choice([0, 0, 1, 2]))
+        h = [rng.randrange(0, 5) for _ in range(rng.randrange(0, 3))]
+        b = [rng.random() < 0.5 for _ in range(rng.randrange(0, 4))]
+        prog = []
+        for _ in range(rng.randrange(2, 5)):
+            prog += [IV(h), BV(b), I("OUTPUT.WRITE")]
+            if rng.random() < 0.3: prog.append(I(rng.choice(IO_NAMES)))
+        if rng.random() < 0.5:
+            prog += [IV([9]), BV([True]), I("OUTPUT.WRITE"), I("OUTPUT.STACKDEPTH")]
+        cases.append(seq_case(k % 2, st, prog))
+    out.append(Stream("io-repeated-messages", "run", "run.check", cases,
+                      "2..4 consecutive OUTPUT.WRITEs of one and the same (header, body), other INPUT/OUTPUT instructions in between, onto output queues of 0..2 messages"))
+
     # 3. drain: READ GET NEXT repeated over the whole queue (strict FIFO), echo to OUTPUT
     cases = []
     for k in range(6000 if big else 1500):
